@@ -179,6 +179,68 @@ def run(R):
                     R.traces += 1
     finally:
         sys.setswitchinterval(old)
+    # ---- interleaved Grammar() constructions ----
+    # several threads compile grammars at the same time; the descriptions are chosen so that anything one compilation
+    # leaves where another can see it changes what the other generates: names of built-in constructors used as
+    # constructors in one and as rule names in another, deeply nested bodies (helper functions), templates with
+    # compound arguments, operator tables, named grammars.  Every module is judged by the outcomes of a few calls,
+    # compared with the same description compiled alone.
+    filler = ''.join(f'F{i} = Opt("x{i}") >> Some("y") << Sep("z", ",")\n' for i in range(12))
+    deep = 'start = ' + '[' * 22 + 'D, "!"?' + ']' * 22 + '\nD = /[0-9]/\n'
+    deep_no_rule = 'start = ' + '[' * 22 + '/[0-9]/, "!"?' + ']' * 22 + '\n'
+    CONSTR = {
+        'constructors': ('start = Opt("a") >> Some("b") << Right("c", "d")?\n' + filler, ['abb', 'b', 'bcdc', 'a', '']),
+        'rules-named-like-constructors': ('start = [Opt, Some, Right?]\nOpt = "q"\nSome = "r"+\nRight = "s"\nSep = "t"\n' +
+                                          filler.replace('Opt(', 'Choice(').replace('Some(', 'List(').replace('Sep(', 'Seq('), ['qr', 'qrrs', 'q', '']),
+        'templates-named-like-constructors': ('Left(x, y) = [y, x]\nstart = Left("a", "b") | Skip("c")\nSkip(x) = [x, x]\n' + filler.replace('Sep(', 'Alt('), ['ba', 'cc', 'ab', '']),
+        'deep': (deep, ['1', '1!', 'x', '']),
+        'deep-no-rule': (deep_no_rule, ['1', '1!', 'x', '']),
+        'table': ('start = /\\d/ between {\n prefix: "-"\n left: "*"\n left: "+"\n}\n' + filler, ['1+2*3', '-1', '1+', '']),
+        'calls': ('Pair(x) = [x, x]\nstart = Pair("a" | "b") | Pair(N{2})\nN = /[0-9]/\n' + filler, ['aa', 'ba', '1212', '12', '']),
+    }
+    cref = {}
+    for cn, (desc, texts) in CONSTR.items():
+        g = Grammar(desc)
+        cref[cn] = [outcome(g, t) for t in texts]
+    old = sys.getswitchinterval()
+    sys.setswitchinterval(1e-6)
+    try:
+        for rounds in range(4 if quick else 40):
+            nthreads = rnd.choice([3, 4, 8])
+            plans = [[rnd.choice(list(CONSTR)) for _ in range(10)] for _ in range(nthreads)]
+            for pl in plans[:2]:
+                pl[0:2] = ['constructors', 'rules-named-like-constructors'] if plans.index(pl) == 0 else ['rules-named-like-constructors', 'deep']
+            results = [None] * nthreads
+            barrier = threading.Barrier(nthreads)
+
+            def build(k):
+                barrier.wait()
+                outs = []
+                for cn in plans[k]:
+                    desc, texts = CONSTR[cn]
+                    try:
+                        g = Grammar(desc)
+                        outs.append([outcome(g, t) for t in texts])
+                    except Exception as e:          # noqa
+                        outs.append(['construction raised ' + type(e).__name__ + ': ' + str(e)[:80]])
+                results[k] = outs
+            ths = [threading.Thread(target=build, args=(k,)) for k in range(nthreads)]
+            for t in ths:
+                t.start()
+            for t in ths:
+                t.join()
+            for k in range(nthreads):
+                for cn, got in zip(plans[k], results[k]):
+                    R.count('concurrent-constructions', (rounds, k, cn), nontrivial=True)
+                    if got != cref[cn]:
+                        R.counterexample('concurrent-constructions', 'module-depends-on-a-concurrent-construction',
+                                         {'threads': nthreads, 'grammar': CONSTR[cn][0], 'texts': CONSTR[cn][1],
+                                          'compiled_at_the_same_time': sorted(set(x for pl in plans for x in pl))}, cref[cn], got)
+                        break
+                else:
+                    R.traces += 1
+    finally:
+        sys.setswitchinterval(old)
     # ---- re-entrant parses from every kind of callback ----
     reent = {
         'apply': 'class W { v: /[a-z]+/ }\nInner = W\nstart = [W, "(" >> /[a-z]+/ |> `lambda s: Inner.parse(s)`, ")"]\n',
@@ -235,5 +297,5 @@ def run(R):
         rule='histories of 2-30 calls on 1-3 of five modules (different texts, offsets, fullparse values, some abandoned because inline '
              'Python raises), every outcome compared with the same call on a freshly built module; 2-8 threads x 150 calls on shared modules '
              'with a 1 microsecond switch interval; nested parses started from |>, where, a class field, requires and the module-level '
-             'parse; compiling an extending grammar and a grammar re-using the name',
+             'parse; compiling an extending grammar and a grammar re-using the name; 3-8 threads constructing grammars at the same time (constructor names used as rule names in one and as constructors in another, deep bodies, templates, tables)',
         checker_cmd='cd /verif/coq && make -f Makefile.coq && coqc -R . SV Props/C18.v')
